@@ -62,9 +62,12 @@ type Cfg struct {
 	// validator set of the odd heights, when not empty (sets that change from height to height)
 	AltPowers []uint64 `json:"alt_powers,omitempty"`
 	AltTotal  uint64   `json:"alt_total,omitempty"`
-	// Shipped: the shape of the only Validators implementation in /repo (consensus/mock.go):
-	// power 1 for EVERY address (member or not), power Total for the sync pseudo-sender.
+	// Shipped: the shape of the only Validators implementation in /repo (consensus/mock.go, since
+	// b29aadf): power 1 for the members, 0 for every other address, power Total for the sync pseudo-sender.
 	Shipped bool `json:"shipped,omitempty"`
+	// NonMemberPower: what a Shipped validator set gives to an address that is not a member (0 since
+	// b29aadf; the regression demonstration uses what the probe of the real mock reports)
+	NonMemberPower uint64 `json:"non_member_power,omitempty"`
 }
 
 func (c *Cfg) useAlt(h uint64) bool { return len(c.AltPowers) > 0 && h%2 == 1 }
@@ -85,7 +88,10 @@ func (c *Cfg) power(h uint64, i int) uint64 {
 		if i == pseudoIdx {
 			return c.Total
 		}
-		return 1
+		if i >= 0 && i < len(c.Powers) {
+			return 1
+		}
+		return c.NonMemberPower
 	}
 	ps := c.Powers
 	if c.useAlt(h) {
@@ -172,9 +178,9 @@ func joinI(xs []int) string {
 }
 
 func newLine(mid int, cfg *Cfg, ns NodeSpec) string {
-	shipped := 0
+	shipped := uint64(0)
 	if cfg.Shipped {
-		shipped = 1
+		shipped = 1 + cfg.NonMemberPower
 	}
 	return fmt.Sprintf("new %d %d %d %d %d %d %d %d %d %d %s %s %d %s %d", mid, ns.Node, ns.Height, cfg.Total, cfg.Rot,
 		cfg.VMod, cfg.VRem, ns.VBase, ns.VStep, cfg.PMul, joinU(cfg.Powers), joinI(cfg.Tbl), cfg.AltTotal, joinU(cfg.AltPowers), shipped)
@@ -306,6 +312,7 @@ type Act struct {
 	Step   int
 	End    uint64
 	Str    string
+	Wal    *In // for Kind "W": the entry as the input that ProcessWAL would be given on replay
 }
 
 func idS(id *Hsh) (string, uint64, bool) {
@@ -336,15 +343,24 @@ func canonAction(a actions.Action[Val, Hsh, Adr]) Act {
 	case *actions.WriteWAL[Val, Hsh, Adr]:
 		switch e := x.Entry.(type) {
 		case *wal.Start:
-			return Act{Kind: "W", Str: fmt.Sprintf("W:S:%d", uint64(*e))}
+			return Act{Kind: "W", H: uint64(*e), Str: fmt.Sprintf("W:S:%d", uint64(*e)), Wal: &In{Kind: "start", Wal: true, H: uint64(*e)}}
 		case *wal.Proposal[Val, Hsh, Adr]:
-			return Act{Kind: "W", Str: "W:P:" + propS((*types.Proposal[Val, Hsh, Adr])(e))}
+			in := In{Kind: "prop", Wal: true, H: uint64(e.Height), R: int(e.Round), Sender: addrIdx(e.Sender), VR: int(e.ValidRound)}
+			if e.Value != nil {
+				in.Value = uint64(*e.Value)
+			}
+			return Act{Kind: "W", H: in.H, Str: "W:P:" + propS((*types.Proposal[Val, Hsh, Adr])(e)), Wal: &in}
 		case *wal.Prevote[Hsh, Adr]:
-			return Act{Kind: "W", Str: "W:V:" + voteS((*types.Vote[Hsh, Adr])(e))}
+			_, id, isNil := idS(e.ID)
+			return Act{Kind: "W", H: uint64(e.Height), Str: "W:V:" + voteS((*types.Vote[Hsh, Adr])(e)),
+				Wal: &In{Kind: "pv", Wal: true, H: uint64(e.Height), R: int(e.Round), Sender: addrIdx(e.Sender), Value: id, Nil: isNil}}
 		case *wal.Precommit[Hsh, Adr]:
-			return Act{Kind: "W", Str: "W:C:" + voteS((*types.Vote[Hsh, Adr])(e))}
+			_, id, isNil := idS(e.ID)
+			return Act{Kind: "W", H: uint64(e.Height), Str: "W:C:" + voteS((*types.Vote[Hsh, Adr])(e)),
+				Wal: &In{Kind: "pc", Wal: true, H: uint64(e.Height), R: int(e.Round), Sender: addrIdx(e.Sender), Value: id, Nil: isNil}}
 		case *wal.Timeout:
-			return Act{Kind: "W", Str: fmt.Sprintf("W:T:%d:%d:%d", e.Step, e.Height, e.Round)}
+			return Act{Kind: "W", H: uint64(e.Height), Str: fmt.Sprintf("W:T:%d:%d:%d", e.Step, e.Height, e.Round),
+				Wal: &In{Kind: "to", Wal: true, Step: int(e.Step), H: uint64(e.Height), R: int(e.Round)}}
 		default:
 			return Act{Kind: "W", Str: fmt.Sprintf("W:?%T", e)}
 		}
